@@ -1,5 +1,6 @@
 /- helper lemmas (LoopA): facts about `St.emit`, `St.finish`, `handle`, `runLoop`. -/
 import TinyHttpModel.WireSpec
+import TinyHttpModel.Lemmas.Loop
 namespace TH
 
 @[simp] theorem St.emit_out (s : St) (st : Nat) (bs : Option Bytes) (f : Bool) :
@@ -28,26 +29,36 @@ theorem handle_spec (s : St) (h : Head) (fr : Framing) (last : Bool) (a : Action
       (handle s h fr last a body bs fin).1.delivered = s.delivered ++ [d] ∧
       d.method = h.method ∧ d.url = h.url ∧ d.version = h.version ∧ d.headers = h.headers ∧
       d.bodyLength = fr.bodyLength := by
-  unfold handle
-  simp only []
-  obtain ⟨o1, ho1, hd1⟩ : ∃ o1, (if (decide (a.asReaderCalls > 0) && fr.expectContinue) = true then
-      s.emit 100 (printResp (Resp.empty 100) [] h.version h.headers true none) true else s).out = s.out ++ o1
-      ∧ (if (decide (a.asReaderCalls > 0) && fr.expectContinue) = true then
-      s.emit 100 (printResp (Resp.empty 100) [] h.version h.headers true none) true else s).delivered
-        = s.delivered := by
-    split
-    · exact ⟨_, rfl, rfl⟩
-    · exact ⟨[], by simp, rfl⟩
-  generalize (if (decide (a.asReaderCalls > 0) && fr.expectContinue) = true then
-      s.emit 100 (printResp (Resp.empty 100) [] h.version h.headers true none) true else s) = s1 at *
-  generalize (if (decide (a.asReaderCalls > 0) && decide (a.readTotal > 0)) = true then
-      Body.readUpTo (a.readTotal + 1) body (max a.bufSize 1) a.readTotal bs fin
-        else ([], none, body, bs)) = R
-  repeat' split
-  all_goals first
-    | exact ⟨o1, _, ho1, by rw [hd1], rfl, rfl, rfl, rfl, rfl⟩
-    | (simp only [St.emit_out, St.emit_delivered, ho1, hd1, List.append_assoc]
-       exact ⟨_, _, rfl, rfl, rfl, rfl, rfl, rfl, rfl⟩)
+  rw [handle_eq]
+  obtain ⟨⟨_, hd1⟩, ⟨o1, ho1⟩, _⟩ := handleS1_ext s h fr a
+  have hd1' : (handleS1 s h fr a).delivered = s.delivered := by
+    unfold handleS1; split <;> rfl
+  simp only
+  have key : ∀ (s2 : St) (f : Finish), ∃ o, (handleS3 s2 h f).out = s2.out ++ o ∧
+      (handleS3 s2 h f).delivered = s2.delivered := by
+    intro s2 f
+    cases f with
+    | respond r => exact ⟨_, rfl, rfl⟩
+    | drop => exact ⟨_, rfl, rfl⟩
+    | writer ops => exact ⟨_, rfl, rfl⟩
+    | upgrade proto r ops =>
+      exact ⟨(printResp r.toResp r.pieces h.version h.headers false (some proto)).getD [] ++ wopsBytes ops,
+        by simp [handleS3, List.append_assoc], rfl⟩
+    | respondFail r n =>
+      simp only [handleS3]
+      split
+      · exact ⟨_, rfl, rfl⟩
+      · exact ⟨_, rfl, rfl⟩
+  split
+  · exact ⟨o1, _, ho1, by rw [hd1'], rfl, rfl, rfl, rfl, rfl⟩
+  · split
+    all_goals
+      rename_i hh
+      obtain ⟨o, ho, hd⟩ := key _ a.fin
+      refine ⟨o1 ++ o, ⟨h.method, h.url, h.version, h.headers, fr.bodyLength, (handleRead a body bs fin).1,
+        readEndOf (handleRead a body bs fin).2.1, last⟩, ?_, ?_, rfl, rfl, rfl, rfl, rfl⟩
+      · rw [ho, ← List.append_assoc, ← ho1]
+      · rw [hd, hd1']
 
 theorem handle_out_prefix (s : St) (h : Head) (fr : Framing) (last : Bool) (a : Action) (body : Body)
     (bs : Bytes) (fin : EndState) :
